@@ -558,6 +558,11 @@ func (c *Chain) BuildBlock(slot uint64, plan Plan) (*Built, error) {
 		pl.ExtraData = []byte{}
 		c.BlockNumber++
 		pl.ParentHash = pre.LatestExecutionPayloadHeader.BlockHash
+		if fork == refspec.Bellatrix && !sp.IsMergeTransitionComplete(pre) {
+			// the merge transition block: its parent is the terminal proof-of-work block, not something the state knows
+			pl.ParentHash = refspec.Root{0x77, byte(slot), byte(c.Rng.Uint32()), 1}
+			ops["merge_transition_block"]++
+		}
 		pl.PrevRandao = sp.RandaoMix(pre, epoch)
 		pl.Timestamp = sp.TimestampAtSlot(pre, slot)
 		pl.BlockNumber = c.BlockNumber
